@@ -54,6 +54,7 @@ def percentile(a, pct, axis=0, newaxis=None, out=None, overwrite_input=False):
         results = [da.DimArray(res, axes=subaxes) for res in results] # list of DimArrays
         results = da.stack(results, keys=pct, axis=newaxis) # stack in a larger DimArray
 
+    results.attrs.update(a.attrs) # carry over the array's metadata, as the other reductions do
     return results
 
 def quantile(a, q, axis=0, newaxis=None, out=None, overwrite_input=False):
